@@ -60,6 +60,22 @@ func (P) Monitor(c *hx.CaseRun) []hx.Failure {
 		if strings.HasPrefix(ans, "panic") {
 			fs = append(fs, hx.Failure{Monitor: "no_panic", Class: "panic:" + ans, Site: "app", Msg: op})
 		}
+		if m, ok := hx.Arg(toks, "more"); ok && strings.Contains(ans, "admit=ok") {
+			// the generator only emits `more=` lists that repeat an input
+			in, _ := hx.Arg(toks, "in")
+			seen := map[string]bool{in: true}
+			dup := false
+			for _, x := range hx.SplitComma(m) {
+				if seen[x] {
+					dup = true
+				}
+				seen[x] = true
+			}
+			if dup {
+				fs = append(fs, hx.Failure{Monitor: "output_spent_once", Class: "same-output-twice-in-one-transaction", Site: "types/tx_utxo.go:checkTxSemantic",
+					Msg: "a transaction that names the same key image twice was admitted: " + op})
+			}
+		}
 		if toks[0] == "receipts" {
 			// the op line carries what the implementation recorded (dry run), the answer confirms it: count failed receipts
 			if v, ok := hx.Arg(toks, "st"); ok {
@@ -224,6 +240,17 @@ func (P) Generate(g *hx.Gen) {
 					ops = append(ops, fmt.Sprintf("replay id=%d", t), "block", fmt.Sprintf("forceblock ids=%d", t))
 					attempts++
 				}
+			case 11: // one transaction naming the same output twice: adjacent (A,A), (A,A,B) or not (A,B,A), (B,A,A) relative to in=
+				a := g.Rng.Intn(outs)
+				b := g.Rng.Intn(outs)
+				more := []string{fmt.Sprint(a), fmt.Sprintf("%d,%d", a, b), fmt.Sprintf("%d,%d", b, a), fmt.Sprintf("%d,%d,%d", b, b, a)}[g.Rng.Intn(4)]
+				if b == a && outs > 1 {
+					b = (a + 1) % outs
+					more = fmt.Sprintf("%d,%d", b, a)
+				}
+				ops = append(ops, fmt.Sprintf("uu w=0 in=%d more=%s to=1 amount=%d", a, more, 1+g.Rng.Intn(1000000)), "block")
+				id++
+				attempts++
 			case 8: // a spend without any confidential output (whole output to an account), then a second spend of that output
 				in := g.Rng.Intn(outs)
 				ops = append(ops, fmt.Sprintf("ua w=0 in=%d to=%d all=1", in, g.Rng.Intn(3)), "block")
